@@ -139,13 +139,8 @@ Print Assumptions C01_json_doc_roundtrip_checked.
 Theorem C01_json_doc_roundtrip_sel_partial :
   forall sch t jk (sel : dnode -> bool) f,
     tabs_okb sch t = true -> Canon sch f -> Forall (JDocN sch t jk SV_ly) f ->
-    Forall (JDocN sch t jk SV_ly) (prune sel f) -> Forall (Placed sch None) (prune sel f) ->
     json_parse sch t jk (json_doc sch t jk (prune sel f)) = Some (clear_dflt (prune sel f)).
-Proof.
-  intros sch t jk sel f Ht HC HD HD' HP'. unfold json_parse.
-  rewrite (jv_text_doc sch t jk SV_ly Ht SV_ly_key ly_rdstr (prune sel f) ly_rdstr_ok HP' HD').
-  rewrite (conv_tree sch t jk SV_ly Ht (prune sel f) HP' HD'). reflexivity.
-Qed.
+Proof. exact json_doc_roundtrip_sel_proof. Qed.
 Print Assumptions C01_json_doc_roundtrip_sel_partial.
 
 (* non-vacuity: every JSON class (string with escapes and a multi-byte character, number, boolean, empty), a list with
